@@ -88,6 +88,10 @@ peg::parser! {
             non_posix_extensions_enabled() p:specific_operator("|&") { p }
 
         // N.B. We needed to move the function definition branch up to avoid conflicts with array assignment syntax.
+        // N.B. Memoized: a command is reachable from several alternatives of the enclosing rules,
+        // and without memoization unterminated nested constructs are re-parsed from every one of
+        // them at every level (exponential in the nesting depth).
+        #[cache]
         rule command() -> ast::Command =
             f:function_definition() { ast::Command::Function(f) } /
             c:simple_command() { ast::Command::Simple(c) } /
@@ -123,6 +127,9 @@ peg::parser! {
         pub(crate) rule arithmetic_expression() -> ast::UnexpandedArithmeticExpr =
             raw_expr:$(arithmetic_expression_piece()*) { ast::UnexpandedArithmeticExpr { value: raw_expr } }
 
+        // N.B. Memoized for the same reason as `command`: an unmatched `(` is first tried as the
+        // start of a parenthesized piece and then as a plain token, at every nesting level.
+        #[cache]
         rule arithmetic_expression_piece() =
             // Allow a parenthesized expression (with matching opening and closing parens).
             specific_operator("(") (!specific_operator(")") arithmetic_expression_piece())* specific_operator(")") {} /
